@@ -3,7 +3,13 @@
 (* Bounded universe of abstract CIM objects for C05 (used by the model     *)
 (* check CimEqMC and by the enumeration CimEqGen that feeds the binding).  *)
 (*                                                                         *)
-(* Names: 2 bases x 2 lexical variants; optional names also None.          *)
+(* Names: 2 bases x 2 lexical variants; optional names also None; plus the *)
+(* special-fold class: base n6 (2 variants) and base n6s, which differ     *)
+(* under lower() but not under full case folding (FoldNames; one name or   *)
+(* one bag key at a time).                                                 *)
+(* Values include the EMPTY array (in array-typed objects) and None-valued *)
+(* dictionary items (NULL keybinding), with same-length dictionaries that  *)
+(* differ in a key.                                                        *)
 (* Every other attribute ranges over None and two values (flags: None,     *)
 (* True, False).  Per kind the universe contains all objects in which at   *)
 (* most ONE block (names | scalar attributes | children) deviates from a   *)
@@ -30,6 +36,9 @@ Named(n) == En(n.nm[1], n)           \* dictionary entry keyed by the child's na
 OwnNames == {Nm("n1", 0), Nm("n1", 1), Nm("n2", 0), Nm("n2", 1)}
 OwnFew == IF Big THEN OwnNames ELSE {Nm("n1", 0), Nm("n1", 1)}
 OptNames == {NoName, Nm("n1", 0), Nm("n1", 1), Nm("n2", 0)}
+(* special-fold spellings: n6/0 ~ n6/1 differ in case only; n6s differs from
+   both under lower() but not under full case folding *)
+FoldNames == {Nm("n6", 0), Nm("n6", 1), Nm("n6s", 0)}
 
 (* all tuples that differ from `base` in at most one position *)
 Devs(base, doms) ==
@@ -51,7 +60,9 @@ UntypedVals == {Sc("int:1", "1"), U8a, Sc("float:1.0", "1"),
 NumVals == {None, U8a, U8b, Li(<<U8a, U8b>>), Li(<<U8b, U8a>>), Li(<<U8a>>),
             Li(<<>>)}
 StrVals == {None, Sc("str:v1", ""), Sc("str:V1", ""), Sc("str:v2", ""),
-            Li(<<Sc("str:v1", "")>>)}
+            Li(<<Sc("str:v1", "")>>), Li(<<>>)}
+(* array values of an array-typed object: NULL, empty, one, two elements *)
+ArrVals == {None, Li(<<>>), Li(<<U8a>>), Li(<<U8a, U8b>>)}
 
 (* ---- bag configurations from four children:                            *)
 (*      c1, c1v (= c1 in another lexical case), c1m (one attribute         *)
@@ -70,27 +81,34 @@ UQualifier ==
   \cup { Qual(n, at, Sc("str:v1", "")) : n \in OwnFew,
                                          at \in DevsOf({QAt1, QAt2}, QDoms) }
   \cup { Qual(n, QAt2, v) : n \in OwnFew, v \in StrVals }
+  \cup { Qual(n, QAt2, Sc("str:v1", "")) : n \in FoldNames }
 q1 == Qual(Nm("n1", 0), QAt2, Sc("str:v1", ""))
 q1v == Qual(Nm("n1", 1), QAt2, Sc("str:v1", ""))
 q1m == Qual(Nm("n1", 0), [QAt2 EXCEPT ![4] = "True"], Sc("str:v1", ""))
 q2 == Qual(Nm("n2", 0), QAt1, Sc("str:v2", ""))
+qf(n) == Qual(n, QAt2, Sc("str:v1", ""))
 QualCfgs == { [i \in 1..Len(s) |-> Named(s[i])] : s \in BagCfgs(q1, q1v, q1m, q2) }
+            \cup { <<Named(qf(n))>> : n \in FoldNames }
 
 (* ---- QualifierDeclaration ---- *)
 DAt1 == <<"s:string", "False", "none", "none", "none", "none", "none">>
 DAt2 == <<"s:string", "False", "i:5", "True", "False", "True", "False">>
+DAtA == <<"s:string", "True", "none", "none", "none", "none", "none">>
 DDoms == <<Types, Flag, ASize, Flag, Flag, Flag, Flag>>
 TrueS == Sc("bool:True", "1")
 Scope(b, c) == En(Nm(b, c), TrueS)
 ScopeCfgs == { <<>>, <<Scope("n1", 0)>>, <<Scope("n1", 1)>>, <<Scope("n2", 0)>>,
                <<Scope("n1", 0), Scope("n2", 0)>>,
-               <<Scope("n2", 0), Scope("n1", 1)>> }
+               <<Scope("n2", 0), Scope("n1", 1)>>,
+               <<Scope("n6", 0)>>, <<Scope("n6s", 0)>> }
 QDecl(name, at, v, sc) == Mk("QualifierDeclaration", <<name>>, at, <<One(v), sc>>)
 UQualifierDeclaration ==
   { QDecl(n, at, None, <<>>) : n \in OwnNames, at \in {DAt1, DAt2} }
   \cup { QDecl(n, at, None, <<>>) : n \in OwnFew,
                                     at \in DevsOf({DAt1, DAt2}, DDoms) }
   \cup { QDecl(n, DAt1, v, <<>>) : n \in OwnFew, v \in StrVals }
+  \cup { QDecl(Nm("n1", 0), DAtA, v, <<>>) : v \in StrVals }
+  \cup { QDecl(n, DAt1, None, <<>>) : n \in FoldNames }
   \cup { QDecl(n, DAt2, None, sc) : n \in OwnFew, sc \in ScopeCfgs }
 
 (* ---- InstanceName / ClassName ---- *)
@@ -104,13 +122,27 @@ KbCfgs ==
            v \in {Sc("str:v1", ""), Sc("str:V1", "")} }
   \cup { <<Kb("n2", c, Sc("str:v1", "")), Kb("n1", c, v)>> :
            c \in {0, 1}, v \in {Sc("int:1", "1"), U8a, Sc("int:2", "2")} }
+  \* items whose value is None (NULL keybinding); same length, other key
+  \cup { <<Kb("n1", c, None)>> : c \in {0, 1} }
+  \cup { <<Kb("n2", 0, v)>> : v \in {None, Sc("str:v1", "")} }
+  \cup { <<Kb("n1", 0, None), Kb("n2", 0, U8a)>>,
+         <<Kb("n2", 1, Sc("int:1", "1")), Kb("n1", 1, None)>>,
+         <<Kb("n2", 0, U8a), Kb("n3", 0, None)>>,
+         <<Kb("n1", 0, None), Kb("n3", 0, None)>> }
+  \* keys of the special-fold class
+  \cup { <<Kb(n.b, n.c, Sc("int:1", "1"))>> : n \in FoldNames }
+  \cup { <<Kb("n6s", 0, Sc("int:2", "2"))>> }
 NameTriples ==
   { <<cn, h, ns>> : cn \in OwnNames, h \in {NoName}, ns \in {NoName} }
   \cup { <<cn, h, ns>> : cn \in OwnFew, h \in OptNames, ns \in {NoName, Nm("n1", 0)} }
   \cup { <<cn, h, ns>> : cn \in OwnFew, h \in {NoName, Nm("n1", 0)}, ns \in OptNames }
+  \cup { <<cn, NoName, NoName>> : cn \in FoldNames }
+  \cup { <<Nm("n1", 0), h, NoName>> : h \in FoldNames }
+  \cup { <<Nm("n1", 0), NoName, ns>> : ns \in FoldNames }
 UClassName ==
-  IF Big THEN { CName(cn, h, ns) : cn \in OwnNames, h \in OptNames, ns \in OptNames }
-  ELSE { CName(t[1], t[2], t[3]) : t \in NameTriples }
+  { CName(t[1], t[2], t[3]) : t \in NameTriples }
+  \cup IF Big THEN { CName(cn, h, ns) : cn \in OwnNames, h \in OptNames, ns \in OptNames }
+       ELSE {}
 ipath1 == IName(Nm("n1", 0), NoName, Nm("n1", 0), <<Kb("n1", 0, Sc("int:1", "1"))>>)
 ipath1v == IName(Nm("n1", 1), NoName, Nm("n1", 1), <<Kb("n1", 1, Sc("int:1", "1"))>>)
 ipath1m == IName(Nm("n1", 0), NoName, Nm("n1", 0), <<Kb("n1", 0, Sc("int:2", "2"))>>)
@@ -126,12 +158,17 @@ PAt1 == <<"s:uint8", "none", "False", "none", "none">>
 PAt2 == <<"s:string", "s:instance", "False", "i:5", "True">>
 PAtE == <<"s:string", "s:instance", "False", "none", "none">>
 PAtR == <<"s:reference", "none", "False", "none", "none">>
+PAtA == <<"s:uint8", "none", "True", "none", "none">>
 PDoms == <<Types, Emb, Flag, ASize, Flag>>
 Prop(name, rc, co, at, v, qs) == Mk("Property", <<name, rc, co>>, at, <<One(v), qs>>)
 PropNames ==
   { <<n, NoName, NoName>> : n \in OwnNames }
   \cup { <<n, rc, NoName>> : n \in OwnFew, rc \in OptNames }
   \cup { <<n, Nm("n1", 0), co>> : n \in OwnFew, co \in OptNames }
+FoldPropNames ==
+  { <<n, NoName, NoName>> : n \in FoldNames }
+  \cup { <<Nm("n1", 0), rc, NoName>> : rc \in FoldNames }
+  \cup { <<Nm("n1", 0), Nm("n1", 0), co>> : co \in FoldNames }
 emb1 == Mk("Instance", <<Nm("n1", 0)>>, <<>>, << <<>>, <<>>, <<>> >>)
 emb1v == Mk("Instance", <<Nm("n1", 1)>>, <<>>, << <<>>, <<>>, <<>> >>)
 emb2 == Mk("Instance", <<Nm("n2", 0)>>, <<>>, << <<>>, <<>>, <<>> >>)
@@ -145,6 +182,8 @@ UProperty ==
   \cup { Prop(n, NoName, NoName, at, None, <<>>) :
            n \in OwnFew, at \in DevsOf({PAt1, PAt2}, PDoms) }
   \cup { Prop(n, NoName, NoName, PAt1, v, <<>>) : n \in OwnFew, v \in NumVals }
+  \cup { Prop(Nm("n1", 0), NoName, NoName, PAtA, v, <<>>) : v \in ArrVals }
+  \cup { Prop(t[1], t[2], t[3], PAt1, None, <<>>) : t \in FoldPropNames }
   \cup { Prop(Nm("n1", 0), NoName, NoName, PAtE, v, <<>>) : v \in EmbVals }
   \cup { Prop(Nm("n1", 0), Nm("n1", 0), NoName, PAtR, v, <<>>) : v \in RefVals }
   \cup { Prop(n, NoName, NoName, PAt1, U8a, qs) : n \in OwnFew, qs \in QualCfgs }
@@ -152,10 +191,13 @@ p1 == Prop(Nm("n1", 0), NoName, NoName, PAt1, U8a, <<>>)
 p1v == Prop(Nm("n1", 1), NoName, NoName, PAt1, U8a, <<>>)
 p1m == Prop(Nm("n1", 0), NoName, NoName, PAt1, U8b, <<>>)
 p2 == Prop(Nm("n2", 0), NoName, Nm("n1", 0), PAt2, None, <<Named(q1)>>)
+pf(n) == Prop(n, NoName, NoName, PAt1, U8a, <<>>)
 PropCfgs == { [i \in 1..Len(s) |-> Named(s[i])] : s \in BagCfgs(p1, p1v, p1m, p2) }
+            \cup { <<Named(pf(n))>> : n \in FoldNames }
 
 RAt1 == <<"s:uint8", "none", "False", "none">>
 RAt2 == <<"s:string", "s:object", "True", "i:7">>
+RAtA == <<"s:uint8", "none", "True", "none">>
 RDoms == <<Types, Emb, Flag, ASize>>
 Parm(name, rc, at, v, qs) == Mk("Parameter", <<name, rc>>, at, <<One(v), qs>>)
 UParameter ==
@@ -164,12 +206,17 @@ UParameter ==
   \cup { Parm(n, NoName, at, None, <<>>) :
            n \in OwnFew, at \in DevsOf({RAt1, RAt2}, RDoms) }
   \cup { Parm(n, NoName, RAt1, v, <<>>) : n \in OwnFew, v \in NumVals }
+  \cup { Parm(Nm("n1", 0), NoName, RAtA, v, <<>>) : v \in ArrVals }
+  \cup { Parm(n, NoName, RAt1, None, <<>>) : n \in FoldNames }
+  \cup { Parm(Nm("n1", 0), rc, RAt1, None, <<>>) : rc \in FoldNames }
   \cup { Parm(n, NoName, RAt2, None, qs) : n \in OwnFew, qs \in QualCfgs }
 r1 == Parm(Nm("n1", 0), NoName, RAt1, None, <<>>)
 r1v == Parm(Nm("n1", 1), NoName, RAt1, None, <<>>)
 r1m == Parm(Nm("n1", 0), NoName, [RAt1 EXCEPT ![1] = "s:string"], None, <<>>)
 r2 == Parm(Nm("n2", 0), Nm("n2", 0), RAt2, None, <<Named(q2)>>)
+rf(n) == Parm(n, NoName, RAt1, None, <<>>)
 ParmCfgs == { [i \in 1..Len(s) |-> Named(s[i])] : s \in BagCfgs(r1, r1v, r1m, r2) }
+            \cup { <<Named(rf(n))>> : n \in FoldNames }
 
 (* ---- Method ---- *)
 MAt1 == <<"s:uint8", "none">>
@@ -181,11 +228,15 @@ UMethod ==
   \cup { Meth(n, NoName, at, <<>>, <<>>) : n \in OwnFew, at \in DevsOf({MAt1, MAt2}, MDoms) }
   \cup { Meth(n, NoName, MAt1, ps, <<>>) : n \in OwnFew, ps \in ParmCfgs }
   \cup { Meth(n, NoName, MAt2, <<Named(r1)>>, qs) : n \in OwnFew, qs \in QualCfgs }
+  \cup { Meth(n, NoName, MAt1, <<>>, <<>>) : n \in FoldNames }
+  \cup { Meth(Nm("n1", 0), co, MAt1, <<>>, <<>>) : co \in FoldNames }
 m1 == Meth(Nm("n1", 0), NoName, MAt1, <<Named(r1)>>, <<>>)
 m1v == Meth(Nm("n1", 1), NoName, MAt1, <<Named(r1v)>>, <<>>)
 m1m == Meth(Nm("n1", 0), NoName, MAt1, <<Named(r1m)>>, <<>>)
 m2 == Meth(Nm("n2", 0), NoName, MAt2, <<>>, <<>>)
+mf(n) == Meth(n, NoName, MAt1, <<>>, <<>>)
 MethCfgs == { [i \in 1..Len(s) |-> Named(s[i])] : s \in BagCfgs(m1, m1v, m1m, m2) }
+            \cup { <<Named(mf(n))>> : n \in FoldNames }
 
 (* ---- Instance / Class ---- *)
 Inst(cn, path, ps, qs) == Mk("Instance", <<cn>>, <<>>, <<path, ps, qs>>)
@@ -194,6 +245,7 @@ UInstance ==
   { Inst(cn, p, <<>>, <<>>) : cn \in OwnNames, p \in IPaths }
   \cup { Inst(cn, <<>>, ps, <<>>) : cn \in OwnFew, ps \in PropCfgs }
   \cup { Inst(cn, One(ipath1), <<Named(p1)>>, qs) : cn \in OwnFew, qs \in QualCfgs }
+  \cup { Inst(cn, <<>>, <<>>, <<>>) : cn \in FoldNames }
 cpath1 == CName(Nm("n1", 0), NoName, Nm("n1", 0))
 cpath1v == CName(Nm("n1", 1), NoName, Nm("n1", 1))
 cpath2 == CName(Nm("n1", 0), Nm("n2", 0), Nm("n1", 0))
@@ -205,6 +257,8 @@ UClass ==
   \cup { Cls(cn, NoName, <<>>, ps, <<>>, <<>>) : cn \in OwnFew, ps \in PropCfgs }
   \cup { Cls(cn, Nm("n2", 0), <<>>, <<Named(p2)>>, ms, <<>>) : cn \in OwnFew, ms \in MethCfgs }
   \cup { Cls(cn, NoName, One(cpath1), <<>>, <<Named(m2)>>, qs) : cn \in OwnFew, qs \in QualCfgs }
+  \cup { Cls(cn, NoName, <<>>, <<>>, <<>>, <<>>) : cn \in FoldNames }
+  \cup { Cls(Nm("n1", 0), sc, <<>>, <<>>, <<>>, <<>>) : sc \in FoldNames }
 
 (* ---- CIMDateTime: <<kind, instant (UTC), utc offset, precision, text>> ---- *)
 Dt(kind, inst, off, prec, text) == Mk("DateTime", <<>>, <<kind, inst, off, prec, text>>, <<>>)
